@@ -494,6 +494,12 @@ def run(ctx):
                               'tally values are read from the log messages of TallyTable.log'])
 
 def replay(ctx, obj):
+    if obj.get('kind') == 'exon_lookup':
+        c = obj['case']
+        a = I.run_cases('py2coq_exon', [c], jobs=1, tag='c15x')[0]
+        want = model_exon_lookup(c['fn'], c['strand'], c['exons'], c['pos'])
+        got = None if isinstance(a, dict) and a.get('__exc__') in ('ValueError', 'UnboundLocalError') else a
+        return dict(violations=[] if got == want else [{'what': obj.get('what', ''), 'replay_obj': obj}])
     if obj.get('kind') != 'case':
         return dict(violations=[{'what': 'correspondence replay: ' + obj.get('name', ''), 'replay_obj': obj, 'no_input': True}])
     st = new_stats()
@@ -507,6 +513,46 @@ def search_failing_input(ctx, broken):
     convert_to_variant_records body or a CLI record loop regenerated from the source differs from Model/Fusion.v):
     run the correspondence on the quick budget with a stream of its own and return the first input on which the
     implementation and the model (or the statement) part."""
-    import sys
+    import sys, random
     from harness.lib import py2coq_search
+    if 'exon_' in str(broken.get('theorem') or '') or 'exon_' in str(broken.get('why') or ''):
+        r = exon_lookup_disagreement(random.Random(ctx.seed * 1000003 + 11))
+        if r:
+            return r
     return py2coq_search.first_disagreement(sys.modules[__name__], ctx, broken)
+
+def model_exon_lookup(fn, strand, ex, pos):
+    """Fusion.upstream_exon_end / downstream_exon_start of coq/Model/Fusion.v transcribed (None = the model's None)"""
+    ind = None
+    if fn == 'get_upstream_exon_end':
+        for s, e in (ex if strand == 1 else ex[::-1]):
+            if (e > pos) if strand == 1 else (s < pos):
+                break
+            ind = e - 1 if strand == 1 else s
+        return ind
+    for s, e in (ex if strand == 1 else ex[::-1]):
+        if (s >= pos) if strand == 1 else (e - 1 <= pos):
+            return s if strand == 1 else e - 1
+    return None
+
+def exon_lookup_disagreement(rng, n=4000):
+    """the exon look-ups of shift_breakpoint_to_closest_exon (docs/py2coq.md target 26) on bare exon lists: the functions
+    of the checked-out source against the model; exons satisfy 0 <= start < end, the hypothesis of the theorems"""
+    cases = []
+    for _ in range(n):
+        x, ex = rng.randint(0, 6), []
+        for _ in range(rng.randint(1, 4)):
+            e = x + rng.randint(1, 5)
+            ex.append([x, e])
+            x = e + rng.randint(1, 5)
+        cases.append(dict(fn=rng.choice(['get_upstream_exon_end', 'get_downstream_exon_start']), strand=rng.choice([1, -1]),
+                          exons=ex, pos=rng.randint(-1, x + 1)))
+    cases.sort(key=lambda c: (len(c['exons']), c['pos']))
+    for c, a in zip(cases, I.run_cases('py2coq_exon', cases, jobs=4, tag='c15x')):
+        want = model_exon_lookup(c['fn'], c['strand'], c['exons'], c['pos'])
+        got = None if isinstance(a, dict) and a.get('__exc__') in ('ValueError', 'UnboundLocalError') else a
+        if got != want:
+            return {'kind': 'exon_lookup', 'case': c, 'impl': a if not isinstance(a, dict) else a.get('__exc__'), 'model': want,
+                    'what': 'TranscriptAnnotationModel.%s(pos=%d) on strand %d exons %s: implementation %s, model %s' % (
+                        c['fn'], c['pos'], c['strand'], c['exons'], a if not isinstance(a, dict) else a.get('__exc__'), want)}
+    return None
